@@ -102,6 +102,7 @@ Definition parse_value (s : string) : option value :=
 Inductive event :=
 | EPreset (db : Z) (key : string) (v : value) (dl : Z)
 | ECmd (conn : Z) (argv : list string)
+| ESelectEmbedded (db : Z)
 | EAdvance (ms : Z)
 | EDigest
 | EBad (line : string).
@@ -118,6 +119,7 @@ Definition parse_event (line : string) : option event :=
       | Some db', Some k, Some v', Some dl' => Some (EPreset db' k v' dl')
       | _, _, _, _ => Some (EBad line)
       end
+  | ["D"; db] => match parse_int db with Some z => Some (ESelectEmbedded z) | None => Some (EBad line) end
   | ["A"; ms] => match parse_int ms with Some z => Some (EAdvance z) | None => Some (EBad line) end
   | ["G"] => Some EDigest
   | "N" :: _ => None
@@ -153,6 +155,7 @@ Definition step_event (w : world) (e : event) : world * list string :=
       let s2 := if dl =? 0 then s1 else set_expiry s1 db k (Some dl) in
       (w <| w_st := s2 |>, [])
   | ECmd c argv => let '(w', r) := exec_cmd w c argv in (w', ["R " +:+ show_reply r])
+  | ESelectEmbedded d => (w <| w_conns := <[0 := d]> (w_conns w) |>, [])
   | EAdvance ms => (w <| w_st := (w_st w) <| st_now := st_now (w_st w) + ms |> |>, [])
   | EDigest => (w, ["G " +:+ show_state (w_st w)])
   | EBad l => (w, ["BAD " +:+ l])
